@@ -302,6 +302,11 @@ pub fn check_result(
     for w in result.windows(2) {
         let (a, b) = (w[0].1, w[1].1);
         if !judge_distances {
+            // a candidate without a score (NaN) is never ranked before one that has a score:
+            // "nearest first" under the total order that puts NaN last
+            if a.is_nan() && !b.is_nan() {
+                return fail("X/order-nan", format!("an unscored (NaN) result precedes a scored one: {result:?}"));
+            }
             let both_clean = query_clean && model.get(&w[0].0).map_or(false, |v| clean(v)) && model.get(&w[1].0).map_or(false, |v| clean(v));
             if !both_clean || a.is_nan() || b.is_nan() {
                 continue;
